@@ -148,6 +148,7 @@ type Party struct {
 	Ref       *refotr.Peer // non-nil: reference party
 	RefSecret []byte       // secret a reference party answers SMP with
 	RefAuto   bool         // reference party drives SMP by itself
+	RefRelay  *Party       // man in the middle: SMP TLVs received here are re-sent unchanged by this other reference party
 	SMPResult []int        // results reported by the reference party's SMP steps
 	refInbox  int
 
@@ -484,6 +485,14 @@ func (p *Party) refReceive(r *CallResult, msg []byte) {
 		for _, t := range d.TLVs {
 			switch {
 			case t.Type >= refotr.TLVSMP1 && t.Type <= refotr.TLVSMP1Q:
+				if p.RefRelay != nil && p.RefRelay.Ref.Encrypted {
+					q := p.RefRelay
+					if m, err := q.Ref.SendTLV(t); err == nil {
+						p.W.Put(q.Idx, q.Cfg.Peer, m, false, -1, -1, "relayed-smp")
+						p.W.Fault("relay-smp")
+					}
+					continue
+				}
 				if !p.RefAuto {
 					continue
 				}
